@@ -245,6 +245,40 @@ pub fn run(prop: &str, tier: Tier) -> i32 {
     };
     let t = explore_all(&rep, scns, dfs);
     let mut extra = vec![];
+    // long single runs under fixed scheduling policies (counts and sizes beyond the search's reach)
+    {
+        let runs = scenarios::long_runs(prop);
+        let only = std::env::var("VERIF_E1_ONLY").unwrap_or_default();
+        let runs: Vec<_> = runs.into_iter().filter(|r| only.is_empty() || r.0.name.contains(&only)).collect();
+        let report = std::sync::Mutex::new(vec![]);
+        let queue = std::sync::Mutex::new(runs);
+        let threads = std::thread::available_parallelism().map(|x| x.get()).unwrap_or(8).min(16);
+        std::thread::scope(|sc| {
+            for _ in 0..threads {
+                sc.spawn(|| loop {
+                    let item = queue.lock().unwrap().pop();
+                    let (scn, policy) = match item {
+                        Some(x) => x,
+                        None => break,
+                    };
+                    let scn = Arc::new(scn);
+                    let t0 = std::time::Instant::now();
+                    let (o, path) = model::run_canonical(&scn, policy, 3_000_000);
+                    for (k, d) in &o.viol {
+                        // (paths of long runs are long: the replay file keeps the first 20000 actions)
+                        let shown: Vec<types::Action> = path.iter().take(20_000).cloned().collect();
+                        rep.violation(k, &format!("[{} / {:?}] {}", scn.name, policy, d), json!({"engine": "e1", "scenario": &*scn, "path": shown, "policy": format!("{:?}", policy), "steps": path.len()}));
+                    }
+                    let calls: usize = o.logs.iter().map(|l| l.len()).sum();
+                    report.lock().unwrap().push(json!({"scenario": scn.name, "policy": format!("{:?}", policy), "steps": path.len(), "calls_completed": calls,
+                        "ran_to_the_end": o.enabled.is_empty(), "driver": o.driver, "wall_s": t0.elapsed().as_secs_f64()}));
+                });
+            }
+        });
+        let mut r = report.into_inner().unwrap();
+        r.sort_by(|a, b| a["scenario"].as_str().cmp(&b["scenario"].as_str()));
+        extra.push(("long_runs", json!(r)));
+    }
     if prop == "C05" {
         // OS-thread interleavings around the ID table (loom)
         use crate::e2::{explore, Shape};
